@@ -421,7 +421,7 @@ def plan(prop, tier, seed, budget):
         )
     elif prop == 'C16':
         hs = ['map', 'vector', 'string', 'hash', 'mem', 'array']
-        jobs = [g7_jobs(h, 150 if q else 2500, workers=3 if q else 4, pair_max=12) for h in hs]
+        jobs = [g7_jobs(h, 500 if q else 15000, workers=3 if q else 5, pair_max=12) for h in hs]
         P = dict(
             level='fault_enumeration',
             builds=[(h, 'asan') for h in hs],
